@@ -146,6 +146,9 @@ func (p *Program) verifyFunc(name string, view string) *FuncResult {
 		}
 		// each postcondition is checked separately at every return site (no merged exit state in the VC)
 		for _, en := range ct.Ensures {
+			if ct.CheckCalls {
+				break // postconditions of a checkcalls contract stay assumed
+			}
 			if !e.inView(en) || (en.View == "" && !e.primary()) {
 				continue
 			}
